@@ -245,6 +245,9 @@ func discharge(o *Obligation, dir string, timeout time.Duration, idx int) {
 	if o.Static {
 		return
 	}
+	if o.ShortTimeout {
+		timeout = 4 * time.Second
+	}
 	fname := filepath.Join(dir, fmt.Sprintf("o%04d.smt2", idx))
 	txt := smtFile(o, true)
 	if len(txt) > 512*1024 {
